@@ -25,10 +25,11 @@ import (
 
 func TestC14Concurrent(t *testing.T) {
 	e := vlib.GetEnv()
-	n := e.Pick(4, 80)
+	n := e.Pick(6, 120)
 	vlib.RunCases(t, "C14", "overlapping-requests", n, func(c *vlib.Case) vlib.Result {
 		var res vlib.Result
 		mutating := c.Index%2 == 1
+		parkedBeforeRun := c.Index%3 == 2
 		section := "kubernetesValidating"
 		if mutating {
 			section = "kubernetesMutating"
@@ -83,18 +84,36 @@ func TestC14Concurrent(t *testing.T) {
 				answers[i] = ans{rec.Code, rec.Body.Bytes()}
 				done <- i
 			}
-			go send(0)
-			// the second request arrives while the first hook run lingers after having written its answer
-			for i := 0; i < 200; i++ {
-				realSleep(10 * time.Millisecond)
-				if len(hs.Executions()) >= 1 {
-					break
+			if parkedBeforeRun {
+				// the first request is held right before its hook run starts (task built, context file not yet
+				// written); the second request is served completely meanwhile; then the first continues
+				gate := vlib.NewGate()
+				defer gate.Release()
+				sys.Pts.On("op.afterRateLimitWait", func(ev vlib.PointEvent) {
+					if ev.Args[0].(string) == "adm" {
+						gate.Park()
+					}
+				})
+				go send(0)
+				<-gate.Arrived
+				go send(1)
+				<-done
+				gate.Release()
+				<-done
+			} else {
+				go send(0)
+				// the second request arrives while the first hook run lingers after having written its answer
+				for i := 0; i < 200; i++ {
+					realSleep(10 * time.Millisecond)
+					if len(hs.Executions()) >= 1 {
+						break
+					}
 				}
+				realSleep(300 * time.Millisecond)
+				go send(1)
+				<-done
+				<-done
 			}
-			realSleep(300 * time.Millisecond)
-			go send(1)
-			<-done
-			<-done
 		})
 		if res.Inconclusive != "" {
 			return res
@@ -102,6 +121,24 @@ func TestC14Concurrent(t *testing.T) {
 		execs := hs.Executions()
 		overlap := len(execs) == 2 && execs[0].End != nil && execs[1].Begin.StartMono < execs[0].End.EndMono
 		desc := fmt.Sprintf("two overlapping requests to one %s binding: run 0 writes allowed=%v and lingers 1.2 s, run 1 writes allowed=%v and lingers 2.4 s (runs overlapped: %v)\nanswer 0: HTTP %d %s\nanswer 1: HTTP %d %s", section, verdicts[0], verdicts[1], overlap, answers[0].Code, bytes.TrimSpace(answers[0].Body), answers[1].Code, bytes.TrimSpace(answers[1].Body))
+		// every hook run must have been given the review of its own request
+		for _, ex := range execs {
+			if len(ex.Contexts) != 1 {
+				continue
+			}
+			rv, _ := ex.Contexts[0]["review"].(map[string]any)
+			rq, _ := rv["request"].(map[string]any)
+			// run N was planned for request N only when the first request's run starts first; with the first
+			// request parked before its run, the second request's run is execution 0
+			want := ex.N
+			if parkedBeforeRun {
+				want = 1 - ex.N
+			}
+			res.Count("overlapping_contexts_checked", 1)
+			if fmt.Sprint(rq["uid"]) != fmt.Sprintf("overlap-%d-%d", c.Index, want) {
+				res.Violate("overlap/hook-run-got-another-requests-review", "hook run %d received the review of %v, it serves request overlap-%d-%d\n%s", ex.N, rq["uid"], c.Index, want, desc)
+			}
+		}
 		for i, a := range answers {
 			var out struct {
 				Response *struct {
@@ -117,9 +154,13 @@ func TestC14Concurrent(t *testing.T) {
 			if out.Response.UID != fmt.Sprintf("overlap-%d-%d", c.Index, i) {
 				res.Violate("overlap/uid-not-echoed", "request %d\n%s", i, desc)
 			}
-			if out.Response.Allowed && !verdicts[i] {
+			vi := i
+			if parkedBeforeRun {
+				vi = 1 - i // request i is served by hook run 1-i
+			}
+			if out.Response.Allowed && !verdicts[vi] {
 				res.Violate("overlap/allowed-although-own-hook-run-denied", "request %d was answered allowed=true, its own hook run wrote a denial\n%s", i, desc)
-			} else if !out.Response.Allowed && verdicts[i] {
+			} else if !out.Response.Allowed && verdicts[vi] {
 				res.Violate("overlap/denied-although-own-hook-run-allowed", "request %d was answered allowed=false, its own hook run allowed it\n%s", i, desc)
 			}
 		}
